@@ -3,6 +3,10 @@ package timedom
 import (
 	"encoding/json"
 	"fmt"
+	"os"
+	"path/filepath"
+	"sort"
+	"strings"
 
 	"verifharness/corr"
 )
@@ -17,33 +21,8 @@ func Run(c *corr.Ctx) {
 		"(c) sender->receiver histories on a linear writer clock: packets, reports after random/boundary elapsed times, late/reordered delivery, PacketNTP queries up to ±2^31 ticks away. " +
 		"A case is non-trivial when it has more than one operation; distinct = distinct op-line sequences")
 	if c.Replay != nil {
-		var k struct {
-			Kind string `json:"kind"`
-		}
-		if err := json.Unmarshal(c.Replay, &k); err != nil {
-			panic(err)
-		}
-		switch k.Kind {
-		case "dec":
-			var h DecHistory
-			if err := json.Unmarshal(c.Replay, &h); err != nil {
-				panic(err)
-			}
-			decRun(c, &h, "replay")
-		case "ntp":
-			var b NtpBatch
-			if err := json.Unmarshal(c.Replay, &b); err != nil {
-				panic(err)
-			}
-			ntpRun(c, &b, "replay")
-		case "sr":
-			var h SRHistory
-			if err := json.Unmarshal(c.Replay, &h); err != nil {
-				panic(err)
-			}
-			srRun(c, &h, "replay")
-		default:
-			panic("unknown replay kind " + k.Kind)
+		if !runInput(c, c.Replay, "replay") {
+			panic("replay input not understood")
 		}
 		return
 	}
@@ -84,8 +63,66 @@ func Run(c *corr.Ctx) {
 	srBoundary(c)
 }
 
-// corpus: hand-made cases that are always run first.
+// runInput executes one recorded input (the `input` of a violation / a corpus file).
+func runInput(c *corr.Ctx, raw []byte, name string) bool {
+	var k struct {
+		Kind string `json:"kind"`
+	}
+	if err := json.Unmarshal(raw, &k); err != nil {
+		return false
+	}
+	switch k.Kind {
+	case "dec":
+		var h DecHistory
+		if err := json.Unmarshal(raw, &h); err != nil {
+			return false
+		}
+		decRun(c, &h, name)
+	case "ntp":
+		var b NtpBatch
+		if err := json.Unmarshal(raw, &b); err != nil {
+			return false
+		}
+		ntpRun(c, &b, name)
+	case "sr":
+		var h SRHistory
+		if err := json.Unmarshal(raw, &h); err != nil {
+			return false
+		}
+		srRun(c, &h, name)
+	default:
+		return false
+	}
+	return true
+}
+
+func corpusDir(prop string) string {
+	if d := os.Getenv("VERIF_ROOT"); d != "" {
+		return filepath.Join(d, "corpus", prop)
+	}
+	if exe, err := os.Executable(); err == nil {
+		d := filepath.Join(filepath.Dir(exe), "..", "..", "corpus", prop)
+		if st, err2 := os.Stat(d); err2 == nil && st.IsDir() {
+			return d
+		}
+	}
+	return "/verif/corpus/" + prop
+}
+
+// corpus: recorded inputs (corpus/C15/*.json) and hand-made cases, always run first.
 func corpus(c *corr.Ctx) {
+	files, _ := filepath.Glob(filepath.Join(corpusDir("C15"), "*.json"))
+	sort.Strings(files)
+	for _, f := range files {
+		raw, err := os.ReadFile(f)
+		if err != nil {
+			continue
+		}
+		if !runInput(c, raw, "corpus-"+strings.TrimSuffix(filepath.Base(f), ".json")) {
+			c.Note("corpus file not understood: " + f)
+		}
+		c.Dist("corpus-files")
+	}
 	// the package's own unit-test scenario shape: one wrap forwards, then backwards
 	decRun(c, &DecHistory{Kind: "dec", Ops: []DecOp{
 		{Track: 1, Rate: 90000, Eq: true, TS: 4294877296, Now: 1000000000},
